@@ -139,8 +139,8 @@ def run(facts, tier):
     # callers chain: push <- init_order <- init_order_recursive (all impls) <- ?
     allowed_roots = {"xml_info::XmlDocument::new"}
     rec = {f["id"] for f in facts.fns.values() if f["path"].endswith("init_order_recursive")}
-    if len(rec) < 10:
-        raise BrokenCheck("C14-3: %d init_order_recursive functions (floor 10)" % len(rec))
+    if len(rec) < 6:
+        raise BrokenCheck("C14-3: %d init_order_recursive functions (floor 6)" % len(rec))
     pushers = e6.callers_of(facts, lambda n: n == "xml_info::DocumentOrder::push")
     if [c["path"] for c, _ in pushers] != ["xml_info::HasContext::init_order"]:
         res.add(Finding("C14-3", "push-callers", "DocumentOrder::push is called from %s (expected only HasContext::init_order)"
@@ -240,8 +240,8 @@ def c14_8(facts, res, rule="C14-8"):
                     res.add(Finding(rule, f["path"].split("::")[-1] + "|" + shifts[0]["m"], "%s shifts the order vector (Vec::%s) without "
                                     "bumping `version`: the keys cached by the items behind the shift stay valid in their eyes and are "
                                     "now off by one" % (f["path"], shifts[0]["m"]), f["file"], shifts[0].get("ln"), {}))
-    if st["instances"] < 3:
-        raise BrokenCheck("C14-8: %d shifting statements in DocumentOrder (floor 3)" % st["instances"])
+    if st["instances"] < 2:
+        raise BrokenCheck("C14-8: %d shifting statements in DocumentOrder (floor 2)" % st["instances"])
 
 
 def _guard_on_get(facts, f, defs, site_bb):
